@@ -4,7 +4,12 @@ Input space: texts of 0..N lines, every line one of a small alphabet of line sha
 only, un-indented, indented, trailing blanks, tokens separated by blanks / adjacent, keyword, tab
 indent, quoted string, illegal character; for the span configuration also span opener / closer on
 the same or on a later line), each text given once as one str and once as a list of lines, under
-four tokenizer configurations (plain, synonyms, keywords, one span matcher).  Every legal text is
+four tokenizer configurations (plain, synonyms, keywords, one span matcher).  The texts of up to
+`term_full_lines` lines (and longer ones over the reduced alphabet TERM_SHAPES_*) are also given as
+the other kinds of 'lines' (TERM_MODES): a tuple of lines, and a list / tuple whose items still end
+with their line terminator as readlines() returns them ('\n' or '\r\n'; the last line with or
+without one).  There the terminator is one more blank character at the end of its line (every
+configuration's blank pattern matches it), line k of the text is item k of the sequence.  Every legal text is
 parsed with two grammars of the same language of items - one with sequences of optional parts, one
 (`_grammar_prefix`) whose alternatives share common prefixes (of one terminal, of two terminals,
 starting with a non-terminal, nested) behind which the matched alternative goes on and ends with a
@@ -121,10 +126,39 @@ CONFIGS = {
 }
 CFG_ORDER = ['plain', 'synonyms', 'keywords', 'span-matcher']
 MODES = ['str', 'list']
+# the other ways to give a text as lines: mode -> (container, terminator appended to the lines, is the
+# last line left without terminator)
+TERM_MODES = {
+    'tuple': (tuple, '', False),
+    'list+nl': (list, '\n', False),                      # f.readlines(), the file ends with a line feed
+    'list+nl,last-line-open': (list, '\n', True),        # f.readlines(), it does not
+    'tuple+nl': (tuple, '\n', False),
+    'list+crlf': (list, '\r\n', False),                  # readlines() of a file opened with newline=''
+}
+TERM_ORDER = ['tuple', 'list+nl', 'list+nl,last-line-open', 'tuple+nl', 'list+crlf']
+# reduced alphabet of the longer texts in these modes (indices into ALL_SHAPES): blank, un-indented,
+# indented, trailing blanks, illegal character; span configuration: + every span shape
+TERM_SHAPES_BASE = [0, 2, 3, 4, 10]
+TERM_SHAPES_SPAN = TERM_SHAPES_BASE + list(range(len(SHAPES_BASE), len(ALL_SHAPES)))
 
 
 def max_lines(tier):
     return 3 if tier == 'quick' else 4
+
+
+def term_full_lines(tier):
+    """TERM_MODES: texts of 1..this many lines over the whole alphabet, longer ones (up to max_lines)
+    over the reduced alphabet"""
+    return 2 if tier == 'quick' else 3
+
+
+def _term_index_tuples(cfg, tier):
+    k = CONFIGS[cfg]['nshapes']
+    for n in range(1, term_full_lines(tier) + 1):
+        yield from itertools.product(range(k), repeat=n)
+    red = TERM_SHAPES_SPAN if CONFIGS[cfg]['span'] else TERM_SHAPES_BASE
+    for n in range(term_full_lines(tier) + 1, max_lines(tier) + 1):
+        yield from itertools.product(red, repeat=n)
 
 
 def enumerate_jobs(tier):
@@ -138,6 +172,10 @@ def enumerate_jobs(tier):
                     if n == 0 and mode == 'str':
                         continue
                     yield (cfg, mode, idx)
+    for cfg in CFG_ORDER:
+        for idx in _term_index_tuples(cfg, tier):
+            for mode in TERM_ORDER:
+                yield (cfg, mode, idx)
 
 
 def space_size(tier):
@@ -145,6 +183,9 @@ def space_size(tier):
     for cfg in CFG_ORDER:
         k = CONFIGS[cfg]['nshapes']
         tot += 1 + 2 * sum(k ** n for n in range(1, max_lines(tier) + 1))
+        r = len(TERM_SHAPES_SPAN if CONFIGS[cfg]['span'] else TERM_SHAPES_BASE)
+        tot += len(TERM_ORDER) * (sum(k ** n for n in range(1, term_full_lines(tier) + 1)) +
+                                  sum(r ** n for n in range(term_full_lines(tier) + 1, max_lines(tier) + 1)))
     return tot
 
 
@@ -155,22 +196,28 @@ def mk_case(cfg, mode, idx):
 # --------------------------------------------------------------------------------------
 # the oracle: reference scanner of the harness' token language
 
-_WS = ' \t\x0b\x0c\r\x1c\x1d\x1e\x85\u2028\u2029'     # blanks of the shapes; '\\n' alone separates lines
+# blanks of the shapes; '\\n' alone separates the lines of a str; as the terminator an item of a
+# sequence of lines still carries it is the last blank of that line
+_WS = ' \t\x0b\x0c\r\x1c\x1d\x1e\x85\u2028\u2029\n'
 _LINE_BREAK_LIKE = '\x0b\x0c\r\x1c\x1d\x1e\x85\u2028\u2029'
 _LOW = 'abcdefghijklmnopqrstuvwxyz_'
 _DIG = '0123456789'
 
 
 class RefTok:
-    __slots__ = ('kind', 'name', 'lexeme', 'value', 'start', 'end', 'trailing')
+    __slots__ = ('kind', 'name', 'lexeme', 'value', 'start', 'end', 'trailing', 'alt')
 
-    def __init__(self, kind, name, lexeme, value, start, end, trailing=False):
+    def __init__(self, kind, name, lexeme, value, start, end, trailing=False, alt=None):
         self.kind, self.name, self.lexeme, self.value = kind, name, lexeme, value
         self.start, self.end, self.trailing = start, end, trailing   # 1-based (line, col), end exclusive
+        # lines that carry their terminator, region over several of them: the second accepted reading
+        # of its text (the lines joined by one more line feed), else None
+        self.alt = alt
 
 
-def ref_slice(lines, start, end):
-    """text between two 1-based positions (end exclusive), lines joined by a line feed"""
+def ref_slice(lines, start, end, sep="\n"):
+    """text between two 1-based positions (end exclusive), lines joined by a line feed (sep='' for
+    lines that carry their terminator: the region of the text as it was given)"""
     (sl, sc), (el, ec) = start, end
     if sl == el:
         return lines[sl - 1][sc - 1:ec - 1]
@@ -178,11 +225,12 @@ def ref_slice(lines, start, end):
     for i in range(sl, el - 1):
         parts.append(lines[i])
     parts.append(lines[el - 1][:ec - 1])
-    return "\n".join(parts)
+    return sep.join(parts)
 
 
-def ref_scan(lines, cfg):
-    """-> (tokens, error): error is None, ('illegal', line, col) or ('unclosed', line, col)"""
+def ref_scan(lines, cfg, sep="\n"):
+    """-> (tokens, error): error is None, ('illegal', line, col) or ('unclosed', line, col)
+    sep: '' when the lines carry their terminators"""
     c = CONFIGS[cfg]
     names = c['names']
     toks = []
@@ -195,8 +243,9 @@ def ref_scan(lines, cfg):
                 if j < 0:
                     break
                 end = (ln, j + 3)
-                toks.append(RefTok('COMMENT', names['COMMENT'], ref_slice(lines, opened, end), None,
-                                   opened, end))
+                region = ref_slice(lines, opened, end, sep)
+                alt = ref_slice(lines, opened, end) if sep != "\n" and end[0] > opened[0] else None
+                toks.append(RefTok('COMMENT', names['COMMENT'], region, None, opened, end, alt=alt))
                 opened = None
                 i = j + 2
                 continue
@@ -453,7 +502,23 @@ class Result:
 
 
 def _show(lines, mode):
-    return repr("\n".join(lines)) if mode == 'str' else repr(list(lines))
+    if mode == 'str':
+        return repr("\n".join(lines))
+    return repr(tuple(lines) if mode in TERM_MODES and TERM_MODES[mode][0] is tuple else list(lines))
+
+
+_DOUBLED = "get_orig_text joins lines that carry their terminator with one more line feed"
+
+
+def _lexeme_ok(res, got, r, ctx):
+    """clause lexeme for one leaf: does get_orig_text give the characters it was matched from"""
+    if got == r.lexeme:
+        return True
+    if r.alt is not None and got == r.alt:
+        res.diag(_DOUBLED, f"{ctx}: token {r.name} over lines {r.start[0]}..{r.end[0]}: get_orig_text gives "
+                 f"{got!r}, the region of the given lines is {r.lexeme!r} (both accepted)")
+        return True
+    return False
 
 
 def _match(obs_tok, r):
@@ -521,21 +586,45 @@ _FULL = True
 def check_case(case, whole_product=True):
     res = Result(case)
     cfg, mode, lines = case['cfg'], case['mode'], list(case['lines'])
-    if cfg not in CONFIGS or mode not in MODES or not all(isinstance(x, str) and '\n' not in x for x in lines):
+    if (cfg not in CONFIGS or (mode not in MODES and mode not in TERM_MODES) or
+            not all(isinstance(x, str) and '\n' not in x for x in lines)):
         raise ValueError(f"malformed case {case!r}")
+    term, sep = '', "\n"
     if mode == 'str':
         text = "\n".join(lines)
         lines = text.split("\n")
-    else:
+    elif mode == 'list':
         text = list(lines)
         if not lines:
             res.in_scope = False            # the quantifier says "one or many lines"
+    else:
+        container, term, last_open = TERM_MODES[mode]
+        if not lines:
+            raise ValueError(f"malformed case {case!r}")
+        lines = [x + term for x in lines[:-1]] + [lines[-1] + ('' if last_open else term)]
+        text = container(lines)
+        if term:
+            sep = ''                        # the lines carry their separators themselves
     ctx = f"{_show(lines, mode)} [{cfg}]"
-    ref, err = ref_scan(lines, cfg)
+    ref, err = ref_scan(lines, cfg, sep)
     res.nontrivial = len(lines) >= 2 or any(r.kind == 'COMMENT' for r in ref)
     if mode == 'list':
         res.hits.add('list-of-lines-input')
-    for r_prev, r_next in zip(ref, ref[1:]):
+    if isinstance(text, tuple):
+        res.hits.add('tuple-of-lines-input')
+    if term and len(lines) >= 2:
+        # items ending with their terminator, as readlines() returns them
+        res.hits.add('lines-that-carry-their-terminator')
+        res.hits.add('lines-terminated-by-' + ('crlf' if term == '\r\n' else 'lf'))
+        if not lines[-1].endswith(term):
+            res.hits.add('lines-that-carry-their-terminator,last-line-without')
+        if any(r.kind not in ('SPACE', 'COMMENT') and r.start[0] > 1 for r in ref):
+            res.hits.add('token-on-line>1-of-lines-that-carry-their-terminator')
+        if any(r.alt is not None for r in ref):
+            res.hits.add('span-closing-on-later-line-of-lines-that-carry-their-terminator')
+        if err is not None and err[0] == 'illegal' and err[1] > 1:
+            res.hits.add('lexical-error-on-line>1-of-lines-that-carry-their-terminator')
+    for r_prev, r_next in (zip(ref, ref[1:]) if not term else ()):     # there '\r' is in the terminator
         if r_prev.kind == 'SPACE' and any(ch in _LINE_BREAK_LIKE for ch in r_prev.lexeme):
             res.hits.add('blank-that-splitlines-breaks-at-inside-a-line')
             if mode == 'str' and r_next.start[0] == r_prev.start[0]:
@@ -629,7 +718,7 @@ def check_case(case, whole_product=True):
                      f"{ctx}: {what} starts at {st} before the end {body[i - 1][3]} of the previous token")
         # lexeme
         got, problem = orig_text(name, value, t.start_pos, t.end_pos, text)
-        if got != r.lexeme:
+        if not _lexeme_ok(res, got, r, ctx):
             if first and st != r.start:
                 ks = 'first-token-of-line'
             elif r.kind == 'COMMENT':
@@ -694,14 +783,14 @@ def check_case(case, whole_product=True):
             gaps.append(cur)
             try:
                 _check_tree(res, root, text, lines, pairs, end_obs, ctx, where, cleanup,
-                            grammar, smart, gaps)
+                            grammar, smart, gaps, sep)
             except Garbage as g:
                 res.fail('monotone', 'garbage-position', f"{where} of {ctx}: {g}")
     return res
 
 
 def _check_tree(res, root, text, lines, pairs, end_obs, ctx, where, cleaned, grammar=None, smart=True,
-                gaps=None):
+                gaps=None, sep="\n"):
     """cleaned trees: the cleanup squashes chains, a leaf may carry the name of the squashed parent.
     grammar / smart / gaps serve the reach events only."""
     TE = llparser.TElement
@@ -763,7 +852,7 @@ def _check_tree(res, root, text, lines, pairs, end_obs, ctx, where, cleaned, gra
             got, problem = None, describe_exc(e)
         if n.is_leaf() and n.value is not None:
             o, r, first = pairs[i0]
-            if got != r.lexeme:
+            if not _lexeme_ok(res, got, r, ctx):
                 if first and st != r.start:
                     ks = 'first-token-of-line'
                 elif r.kind == 'COMMENT':
@@ -776,10 +865,13 @@ def _check_tree(res, root, text, lines, pairs, end_obs, ctx, where, cleaned, gra
                          f"expected {r.lexeme!r}")
         else:
             try:
-                want = ref_slice(lines, st, en) if st <= en else None
+                want = ref_slice(lines, st, en, sep) if st <= en else None
             except IndexError:
                 want = None
-            if want is not None and got != want:
+            if want is not None and got != want and sep != "\n" and got == ref_slice(lines, st, en):
+                res.diag(_DOUBLED, f"{where} of {ctx}: {what} {st}-{en}: get_orig_text gives {got!r}, the "
+                         f"region of the given lines is {want!r}")
+            elif want is not None and got != want:
                 res.diag("get_orig_text differs from the text between the reported positions", f"{where} of {ctx}: {what} {st}-{en}: get_orig_text "
                          f"{'gives ' + repr(got) if problem is None else 'fails: ' + problem}, the text "
                          f"between these positions is {want!r}")
@@ -873,6 +965,12 @@ REACH = ['first-on-line-token-without-leading-whitespace', 'span-closing-on-late
          'span-token-as-tree-leaf', 'two-trailing-empty-children-before-skipped-text',
          'three-trailing-empty-children-before-skipped-text',
          'blank-that-splitlines-breaks-at-inside-a-line', 'token-behind-such-a-blank-in-str-input',
+         # text given as a sequence of lines whose items still end with their line terminator
+         'tuple-of-lines-input', 'lines-that-carry-their-terminator', 'lines-terminated-by-lf',
+         'lines-terminated-by-crlf', 'lines-that-carry-their-terminator,last-line-without',
+         'token-on-line>1-of-lines-that-carry-their-terminator',
+         'span-closing-on-later-line-of-lines-that-carry-their-terminator',
+         'lexical-error-on-line>1-of-lines-that-carry-their-terminator',
          # alternatives with a common prefix; the matched one goes on behind the prefix and ends with a
          # symbol that matched nothing; skipped text stands between its last token and the next token
          'common-prefix-starting-with-a-non-terminal:remainder-ends-with-empty-child-before-skipped-text',
